@@ -7,6 +7,7 @@
 
 mod capture;
 mod run;
+mod session;
 mod syntax;
 
 use std::io::{BufRead, Write};
@@ -52,6 +53,7 @@ fn main() {
         }
         let result = match cmd {
             "run" => run::run_job(&job),
+            "session" => session::session_job(&job),
             "compile" => syntax::compile_job(&job),
             "parse" => syntax::parse_job(&job),
             "format" => syntax::format_job(&job),
